@@ -468,6 +468,21 @@ def analyse(repo):
         s = src(find_func(core, qual))
         i = s.find('prepare_connection_for_query_execution()'); j = s.find('cache.query_results')
         f[qual.split('.')[1].strip('_') + 'FlushesBeforeLookup'] = (0 <= i < j)
+    # Query._aggregate: the value put into cache.query_results is the FINAL one (after the SUM default and converter.sql2py)
+    ag = find_func(core, 'Query._aggregate')
+    order = []
+    for n in ast.walk(ag):
+        if isinstance(n, ast.Assign):
+            t = src(n.targets[0]); v = src(n.value)
+            if t == 'cache.query_results[query_key]' and v == 'result': order.append(('store', n.lineno))
+            elif t == 'result' and v == 'converter.sql2py(result)': order.append(('sql2py', n.lineno))
+            elif t == 'result' and v == '0': order.append(('sumdefault', n.lineno))
+            elif t == 'result' and v == 'row[0]': order.append(('fetch', n.lineno))
+    kinds = [k for k, _ in sorted(order, key=lambda x: x[1])]
+    if sorted(kinds) != ['fetch', 'sql2py', 'store', 'sumdefault']: raise Unknown('Query._aggregate: statements found: %s' % kinds)
+    f['aggregateStoresFinalValue'] = kinds.index('store') > kinds.index('sql2py') and kinds.index('store') > kinds.index('sumdefault')
+    ret = [n for n in ast.walk(ag) if isinstance(n, ast.Return)]
+    if len(ret) != 1 or src(ret[0].value) != 'result': raise Unknown('Query._aggregate: return')
     # rollback closes the session (the next one gets a fresh SessionCache with an empty dict)
     if 'cache.close(rollback=True)' not in src(find_func(core, 'SessionCache.rollback')): raise Unknown('SessionCache.rollback')
     return f
@@ -504,6 +519,8 @@ def render(f):
     lines.append('def lambdaLabels : List (Bool × Bool × Bool × Nat) := [%s]' % ', '.join('(%s, %s, %s, %d)' % (b(r[0]), b(r[1]), b(r[2]), r[3]) for r in f['lambdaLabels']))
     lines.append('/-- `Query._get_translator` rejects a hit whose function vartypes or pinned parameter values differ from the new query\'s -/')
     lines.append('def translatorHitRechecked : Bool := %s' % b(f['translatorHitRechecked']))
+    lines.append('/-- `Query._aggregate` stores the post-processed value (after `None -> 0` for SUM and `converter.sql2py`) -/')
+    lines.append('def aggregateStoresFinalValue : Bool := %s' % b(f['aggregateStoresFinalValue']))
     lines.append('/-- `Entity.flush` contains `query_results.clear()` -/')
     lines.append('def entityFlushClearsResults : Bool := %s' % b(f['entityFlushClearsResults']))
     lines.append('/-- `Query._aggregate` / `Query._actual_fetch` call `prepare_connection_for_query_execution()` before the lookup -/')
